@@ -25,6 +25,7 @@
 import Alpaqa.Proofs.Directions
 import Alpaqa.Props.C10
 import Alpaqa.Props.C15
+import Alpaqa.Proofs.PanocLoopExample
 import Mathlib.Tactic.NormNum
 
 namespace Alpaqa.Props.Directions
@@ -669,5 +670,270 @@ theorem slbfgs_box_partition (l1 lb ub : Vec α) (γ : α) (x g : Vec α) :
   have hnd : (boxInactive l1 lb ub γ x g).Nodup := hs.imp (fun h => Nat.ne_of_lt h)
   have hm := Props.C15.mem_inactiveIndices_iff l1 γ x g lb ub
   exact ⟨hs, hnd, fun j hj => ((hm j).mp hj).1, hm, fun _ => ⟨hnd, fun j hj => ((hm j).mp hj).1⟩⟩
+
+/-! ## §4 AndersonDirection -/
+
+section anderson
+open Finset Alpaqa.C10 Alpaqa.Props.C10
+
+theorem vget_vsub (a b : Vec α) (j : Nat) (ha : j < a.length) (hb : j < b.length) :
+    vget (vsub a b) j = vget a j - vget b j := by
+  simp [vget, vsub, vzip, List.getD_eq_getElem?_getD, List.getElem?_zipWith, ha, hb]
+
+theorem vget_map_range2 (f : Nat → α) (n j : Nat) (hj : j < n) :
+    vget ((List.range n).map f) j = f j := by
+  simp [vget, List.getD_eq_getElem?_getD, hj]
+
+/-- **`apply` = `anderson.compute(x̂ₖ, pₖ, ·)` then `− xₖ`**, always reporting success; it throws
+    (`std::logic_error`) exactly when the accelerator was never initialised.  The accelerator state
+    advances inside `apply` (`update` is a no-op returning `true`). -/
+theorem anderson_apply_eq (c : AndersonCfg α) (st : AA α) (γ : α) (x xh p g q0 : Vec α) :
+    Anderson.apply c st γ x xh p g q0 =
+      if st.initialized then
+        .done (st.computeCore c.fuel c.giv (Anderson.fn xh) (Anderson.fn p)).1 true
+          (vsub ((List.range st.n).map
+            (readV (st.computeCore c.fuel c.giv (Anderson.fn xh) (Anderson.fn p)).2)) x)
+      else .threw := by
+  have e1 : andersonDirComputeArgs γ x xh p g = (xh, p) := rfl
+  have e2 : ∀ compute : Vec α → Vec α → Vec α,
+      andersonDirApply compute γ x xh p g q0 = (vsub (compute xh p) x, true) := fun _ => rfl
+  have e3 : (st.computeCore c.fuel c.giv (Anderson.fn xh) (Anderson.fn p)).1.n = st.n := rfl
+  unfold Anderson.apply
+  rw [e1]
+  simp only [AA.compute, e2]
+  cases st.initialized
+  · simp
+  · simp only [Bool.not_true, Bool.false_eq_true, if_false, if_true, e3]
+
+theorem anderson_update_noop (st : AA α) (γk γn : α) (xk xn pk pn gk gn : Vec α) :
+    Anderson.update st γk γn xk xn pk pn gk gn = (st, true) := rfl
+
+/-- componentwise: `q_j = (x_AA)_j − x_j` -/
+theorem anderson_q_component (c : AndersonCfg α) (st : AA α) (hi : st.initialized = true) (γ : α)
+    (x xh p g q0 : Vec α) (hx : x.length = st.n) :
+    ∃ q, Anderson.apply c st γ x xh p g q0 =
+        .done (st.computeCore c.fuel c.giv (Anderson.fn xh) (Anderson.fn p)).1 true q ∧
+      ∀ j < st.n, vget q j =
+        readV (st.computeCore c.fuel c.giv (Anderson.fn xh) (Anderson.fn p)).2 j - vget x j := by
+  refine ⟨_, by rw [anderson_apply_eq, if_pos hi], fun j hj => ?_⟩
+  rw [vget_vsub _ _ j (by simpa using hj) (by rw [hx]; exact hj), vget_map_range2 _ _ _ hj]
+
+/-- **The provider's operations stay inside C10's reachable Anderson histories**: `initialize`
+    starts one with `g₀ = x̂₀`, `r₀ = p₀`; `changed_γ` either scales the window of residual
+    differences by `γ_new/γ_old` (`rescale_on_step_size_changes`) or flushes it keeping the newest
+    function value (and, note, the last residual computed with the *old* step size); `reset` flushes. -/
+theorem anderson_provider_reach (c : AndersonCfg α) (n : Nat) :
+    (∀ st y Sig γ x xh p g, AReach c.fuel c.giv c.inf c.memory c.minDivFac n
+        (Anderson.init c n st y Sig γ x xh p g) [] [Anderson.fn xh] (Anderson.fn p)) ∧
+    (∀ a W gs rl, AReach c.fuel c.giv c.inf c.memory c.minDivFac n a W gs rl → ∀ γ old : α,
+      (c.rescale = true → AReach c.fuel c.giv c.inf c.memory c.minDivFac n
+        (Anderson.changedGamma c a γ old) (W.map fun col j => col j * (γ / old)) gs rl) ∧
+      (c.rescale = false → AReach c.fuel c.giv c.inf c.memory c.minDivFac n
+        (Anderson.changedGamma c a γ old) [] [winFn gs W.length] rl) ∧
+      AReach c.fuel c.giv c.inf c.memory c.minDivFac n (Anderson.reset c a) [] [winFn gs W.length] rl) := by
+  refine ⟨fun st y Sig γ x xh p g => AReach.init _ _, fun a W gs rl h γ old => ⟨?_, ?_, AReach.reset h⟩⟩
+  · intro hr
+    simp only [Anderson.changedGamma, (changedGamma_selector _ _ _).2, hr, if_true]
+    exact AReach.scale _ h
+  · intro hr
+    simp only [Anderson.changedGamma, (changedGamma_selector _ _ _).2, hr]
+    exact AReach.reset h
+
+/-- **Output relation to the C10 least-squares theorem.**  After any history of provider calls
+    (`AReach`), with a non-degenerate new residual difference (`norm_q ≠ 0` in `add_column`; at the
+    excluded point the real code divides by zero — C10's known finding): `apply` succeeds, moves to
+    the next reachable history (window of residual differences `aaNextW … (pₖ − p_last)`, function
+    values `… x̂ₖ`), and
+        `q = Σᵢ αᵢ gᵢ − xₖ`,  `Σᵢ αᵢ = 1`,
+    over the last `K+1` function values `gᵢ` (the `x̂`'s), `αᵢ` the telescoped least-squares
+    coefficients `γ_LS` of C10. -/
+theorem anderson_apply_affine (c : AndersonCfg α) (hg : GivensOK c.giv) {n : Nat}
+    (hm : 0 < min n c.memory) {a : AA α} {W gs : List (ℕ → α)} {rl : ℕ → α}
+    (h : AReach c.fuel c.giv c.inf c.memory c.minDivFac n a W gs rl) (γ : α) (x xh p g q0 : Vec α)
+    (hx : x.length = n)
+    (hnz : (addCore c.fuel (a.qr1 c.giv) (fun j => Anderson.fn p j - readV a.rLast j)).2.2.1 ≠ 0) :
+    ∃ st' q, Anderson.apply c a γ x xh p g q0 = .done st' true q ∧
+      AReach c.fuel c.giv c.inf c.memory c.minDivFac n st'
+        (aaNextW (min n c.memory) W rl (Anderson.fn p)) (aaNextG (min n c.memory) W gs (Anderson.fn xh))
+        (Anderson.fn p) ∧
+      (∑ i ∈ range ((aaNextW (min n c.memory) W rl (Anderson.fn p)).length + 1),
+        aaCoef (readV st'.gamLS) (aaNextW (min n c.memory) W rl (Anderson.fn p)).length i = 1) ∧
+      ∀ j < n, vget q j =
+        ∑ i ∈ range ((aaNextW (min n c.memory) W rl (Anderson.fn p)).length + 1),
+          aaCoef (readV st'.gamLS) (aaNextW (min n c.memory) W rl (Anderson.fn p)).length i *
+            winFn (aaNextG (min n c.memory) W gs (Anderson.fn xh)) i j - vget x j := by
+  have hi := anderson_history hg hm h
+  obtain ⟨q, hq, hc⟩ := anderson_q_component c a hi.init γ x xh p g q0 (by rw [hi.an]; exact hx)
+  obtain ⟨hsum, haff⟩ := anderson_output_affine hg hm h (Anderson.fn xh) (Anderson.fn p) hnz
+  refine ⟨_, q, hq, AReach.compute _ _ h hnz, hsum, fun j hj => ?_⟩
+  rw [hc j (by rw [hi.an]; exact hj), haff j hj]
+
+/-- … and those coefficients are least-squares optimal: `γ_LS` minimises `‖ΔR·γ − pₖ‖²` over the
+    window of residual differences (no pivot below `max_eig·min_div_fac`). -/
+theorem anderson_apply_least_squares (c : AndersonCfg α) (hs : SqrtLaw α) (hg : GivensOK c.giv)
+    {n : Nat} (hm : 0 < min n c.memory) {a : AA α} {W gs : List (ℕ → α)} {rl : ℕ → α}
+    (h : AReach c.fuel c.giv c.inf c.memory c.minDivFac n a W gs rl) (xh p : Vec α)
+    (hnz : (addCore c.fuel (a.qr1 c.giv) (fun j => Anderson.fn p j - readV a.rLast j)).2.2.1 ≠ 0)
+    (hp : ∀ k < (aaNextW (min n c.memory) W rl (Anderson.fn p)).length,
+      ¬ |(a.qrNext c.fuel c.giv (Anderson.fn p)).getR k k|
+          < aaTol (a.qrNext c.fuel c.giv (Anderson.fn p)).maxEig a.minDivFac ∧
+        (a.qrNext c.fuel c.giv (Anderson.fn p)).getR k k ≠ 0) :
+    ∀ z : ℕ → α,
+      ∑ j ∈ range n, (∑ k ∈ range (aaNextW (min n c.memory) W rl (Anderson.fn p)).length,
+          winFn (aaNextW (min n c.memory) W rl (Anderson.fn p)) k j *
+            readV (a.computeCore c.fuel c.giv (Anderson.fn xh) (Anderson.fn p)).1.gamLS k
+            - Anderson.fn p j) ^ 2 ≤
+      ∑ j ∈ range n, (∑ k ∈ range (aaNextW (min n c.memory) W rl (Anderson.fn p)).length,
+          winFn (aaNextW (min n c.memory) W rl (Anderson.fn p)) k j * z k - Anderson.fn p j) ^ 2 :=
+  anderson_gamma_least_squares hs hg hm h (Anderson.fn xh) (Anderson.fn p) hnz hp
+
+end anderson
+
+/-! ## non-vacuity: concrete instances over ℚ -/
+
+section examples
+open Alpaqa.Panoc.Example
+
+local instance instPowLikeRat : PowLike ℚ := ⟨fun x _ => x⟩
+local instance instHasNaNRat : HasNaN ℚ := ⟨0⟩
+
+/-- flag and vector of an `apply` result -/
+def outOf {σ : Type} : ApplyRes σ ℚ → Option (Bool × Vec ℚ)
+  | .done _ ok q => some (ok, q)
+  | .threw => none
+
+/-- §1: the PANOC run of `Proofs/PanocLoopExample.lean` (ψ = ½‖x‖², x₀ = 1) with the *generated*
+    Noop provider: two iterations are reported `Busy` (so `noop_panoc_is_proximal_gradient` speaks
+    about a non-empty set of callbacks), both with `τ = 0`, and `x₁ = x̂₀ = 21/40`. -/
+example :
+    ((Panoc.run Pq noopDir ⟨(), false⟩ prq (stopAt none) false [1] [] [] [] [] 0).callbacks.map
+      fun cb => (cb.status, cb.tau, cb.it.x, cb.it.xhat)) =
+    [(.Busy, 0, [1], [21/40]), (.Busy, 0, [21/40], [441/1600]), (.Converged, -1, [441/1600], [9261/64000])] := by
+  decide +kernel
+
+/-- §2: L-BFGS provider, memory 2, default (curvature) scaling, after `initialize(n = 2)` and one
+    accepted `update` with `s = (1,1)`, `y = pₖ − pₙₑₓₜ = (1,2)`. -/
+def cL : LbfgsCfg ℚ :=
+  { accel := { memory := 2, minDivFac := 0, minAbsS := 0, cbfgsAlpha := 1, cbfgsEps := 0,
+               forcePosDef := true, curvature := true }, rescale := true }
+
+def stL : C09.State ℚ :=
+  (Lbfgs.update cL ((C09.resize cL.accel 2).getD Lbfgs.fresh) 1 1 [0, 0] [1, 1] [1, 2] [0, 0] [] []).1
+
+example : (Lbfgs.update cL ((C09.resize cL.accel 2).getD Lbfgs.fresh) 1 1 [0, 0] [1, 1] [1, 2] [0, 0] [] []).2
+    = true ∧ stL.abs = [([1, 1], [1, 2])] ∧ stL.isEmpty = false := by decide +kernel
+
+/-- the hypotheses of `lbfgs_apply_dense` / `lbfgs_rescale_scales_direction` hold for it … -/
+example : Props.C09.Good cL.accel stL := by
+  obtain ⟨s, e, hG, _, _⟩ := (lbfgs_init cL 2 Lbfgs.fresh).2 (by decide)
+  have hs : (C09.resize cL.accel 2).getD Lbfgs.fresh = s := by
+    simp only [Lbfgs.init] at e
+    cases hr : C09.resize cL.accel 2 with
+    | none => rw [hr] at e; cases e
+    | some s' => rw [hr] at e; cases e; rfl
+  unfold stL
+  rw [hs, lbfgs_update_pair]
+  exact (Props.C09.updateSy_step cL.accel s hG _ _ _ false).1
+
+/-- … and `apply` returns the value of C09's dense example, `H(3/5)·(1,0) = (13/15, 1/15)`; after
+    `changed_γ(γ = 1/2, γ_old = 1)` with rescaling the direction is doubled. -/
+example : outOf (Lbfgs.apply cL stL 1 [] [] [1, 0] [] []) = some (true, [13/15, 1/15]) ∧
+    outOf (Lbfgs.apply cL (Lbfgs.changedGamma cL stL (1/2) 1) (1/2) [] [] [1, 0] [] [])
+      = some (true, [26/15, 2/15]) ∧
+    (1 / 2 : ℚ) / 1 ≠ 0 := by decide +kernel
+
+/-- `H_scale` on that history: `H(1; (s, 2y)) = ½·H(2; (s, y))`. -/
+example : H (1 : ℚ) [([1, 1], smul 2 [1, 2])] [1, 0] = smul (1 / 2) (H (2 * 1) [([1, 1], [1, 2])] [1, 0]) :=
+  H_scale (2 : ℚ) (by norm_num) 1 [([1, 1], [1, 2])] [1, 0]
+
+/-- without rescaling `changed_γ` flushes and the next `apply` fails with `q = p` -/
+example : outOf (Lbfgs.apply { cL with rescale := false }
+      (Lbfgs.changedGamma { cL with rescale := false } stL (1/2) 1) (1/2) [] [] [1, 0] [] [7, 7])
+    = some (false, [1, 0]) := by decide +kernel
+
+/-- §3: a box problem on `[-1,1]²`, no ℓ1 term, no general constraints; `hessian_vec_factor = 1`
+    with the exact Lagrangian Hessian `∇²L v = 2v`. -/
+def Pq2 : SProblem ℚ :=
+  { n := 2, m := 0, y := [], Sig := [], inactive := boxInactive [] [-1, -1] [1, 1],
+    gradPsi := fun x => smul 2 x, hessLProd := fun _ v => smul 2 v, hessPsiProd := fun _ v => smul 2 v,
+    g := fun _ => [], gradGi := fun _ _ => [], Dlb := [], Dub := [], provInactive := true,
+    provHessL := true, provHessPsi := false, provBoxD := true, provGradGi := false }
+
+def cS (pol : FailurePolicy) : SCfg ℚ :=
+  { accel := cL.accel, hvf := 1, fd := false, fullAug := false, policy := pol, cbrtEps := 1/1000 }
+
+/-- the argument checks pass; with `full_augmented_hessian` and no `eval_hess_ψ_prod` /
+    `eval_grad_gi` they would throw -/
+example : slbfgsInitThrows (cS .UseScaledLBFGSInput).hvf false false Pq2.provInactive Pq2.provHessL
+    Pq2.provHessPsi Pq2.provBoxD Pq2.provGradGi = false ∧
+    slbfgsInitThrows (1 : ℚ) false true true true false true false = true := by decide +kernel
+
+/-- the forced update stores a pair without curvature on index 0 (`s = y = (0,1)`) -/
+def stS : C09.State ℚ :=
+  (SLbfgs.update (cS .UseScaledLBFGSInput) ((C09.resize cL.accel 2).getD SLbfgs.fresh) 1 1 [0, 0] [0, 1]
+    [] [] [0, 0] [0, 1]).1
+
+/-- J/K partition at `x = (0, 3/2)`, `∇ψ = (1, 1)`, `γ = 1/2`: the forward point is `(−1/2, 1)`,
+    index 0 is strictly inside the box (inactive), index 1 sits on the bound (active). -/
+example : Pq2.inactive (1/2) [0, 3/2] [1, 1] = [0] ∧ ([0] : List Nat) ≠ [] ∧ ([0] : List Nat).length ≠ Pq2.n ∧
+    ([0] : List Nat).Nodup ∧ (∀ j ∈ ([0] : List Nat), j < Pq2.n) ∧ stS.isEmpty = false ∧
+    (∀ a : ℚ, RealLike.isNaN a = false) ∧
+    cbfgsEnabled (cS .UseScaledLBFGSInput).accel.cbfgsAlpha (cS .UseScaledLBFGSInput).accel.cbfgsEps = false := by
+  refine ⟨by decide +kernel, by decide, by decide, by decide, by decide, by decide +kernel, fun _ => rfl,
+    by decide +kernel⟩
+
+/-- the right-hand side there: `q_K = p_1 = −1/2` is kept, `q_0 = p_0/γ − 1·(∇²L (0, p_1))_0 = −1 − 0` -/
+example : SLbfgs.rhs Pq2 (cS .UseScaledLBFGSInput) (1/2) [0, 3/2] [] [-1/2, -1/2] [1, 1] [0] = [-1, -1/2] := by
+  decide +kernel
+
+/-- the stored pair is invalid on `J = {0}` (`s_J = 0`), so `apply_masked` fails
+    (`slbfgs_apply_failure_no_valid`): `UseScaledLBFGSInput` returns `q = (−1·γ, p_1) = (−1/2, −1/2)` and
+    reports success, `FallbackToProjectedGradient` reports failure. -/
+example : (∀ cc ∈ stS.pairs, validJ (cS .UseScaledLBFGSInput).accel false [0] cc = false) ∧
+    outOf (SLbfgs.apply Pq2 (cS .UseScaledLBFGSInput) stS (1/2) [0, 3/2] [] [-1/2, -1/2] [1, 1] [9, 9])
+      = some (true, [-1/2, -1/2]) ∧
+    outOf (SLbfgs.apply Pq2 (cS .FallbackToProjectedGradient) stS (1/2) [0, 3/2] [] [-1/2, -1/2] [1, 1] [9, 9])
+      = some (false, [-1, -1/2]) := by decide +kernel
+
+/-- with a pair that has curvature on `J` the masked system is solved: `s = y = (1,1)` gives
+    `H_J = 1`, `q_0 = rhs_0 = −1`, `q_1 = p_1` (`slbfgs_apply_partial`, `ok = true`);
+    `J = ∅` (both forward components outside) fails without touching `q`; `J` full is plain L-BFGS
+    on `p/γ`. -/
+example :
+    let st := (SLbfgs.update (cS .UseScaledLBFGSInput) ((C09.resize cL.accel 2).getD SLbfgs.fresh) 1 1
+      [0, 0] [1, 1] [] [] [0, 0] [1, 1]).1
+    outOf (SLbfgs.apply Pq2 (cS .UseScaledLBFGSInput) st (1/2) [0, 3/2] [] [-1/2, -1/2] [1, 1] [9, 9])
+      = some (true, [-1, -1/2]) ∧
+    outOf (SLbfgs.apply Pq2 (cS .UseScaledLBFGSInput) st (1/2) [2, 3/2] [] [-1, -1/2] [1, 1] [9, 9])
+      = some (false, [9, 9]) ∧
+    outOf (SLbfgs.apply Pq2 (cS .UseScaledLBFGSInput) st (1/2) [0, 0] [] [-1/2, -1/2] [1, 1] [9, 9])
+      = some (true, [-1, -1]) := by decide +kernel
+
+/-- §4: Anderson provider (memory 2, n = 3) over ℚ with Eigen's Givens rotation (`sqrt := id` is a
+    true square root on the values this run meets): `apply` before `initialize` throws; after
+    `initialize(x̂₀, p₀)` the side condition `norm_q ≠ 0` of `anderson_apply_affine` holds for
+    `p₁ ≠ p₀`, and the history is reachable. -/
+def cA : AndersonCfg ℚ :=
+  { memory := 2, minDivFac := 1/1000, rescale := true, inf := 1000, fuel := 4, giv := C10.givensEigen }
+
+def aA : C10.AA ℚ := Anderson.init cA 3 (Anderson.fresh cA) [] [] 1 [0, 0, 0] [1, 2, 3] [1, 0, 0] []
+
+example : outOf (Anderson.apply cA (Anderson.fresh cA) 1 [0, 0, 0] [1, 2, 3] [1, 0, 0] [] []) = none ∧
+    aA.initialized = true ∧ 0 < min 3 cA.memory ∧
+    (C10.addCore cA.fuel (aA.qr1 cA.giv) (fun j => Anderson.fn [0, 0, 0] j - C10.readV aA.rLast j)).2.2.1 ≠ 0 := by
+  decide +kernel
+
+example : Props.C10.AReach cA.fuel cA.giv cA.inf cA.memory cA.minDivFac 3 aA [] [Anderson.fn [1, 2, 3]]
+    (Anderson.fn [1, 0, 0]) := (anderson_provider_reach cA 3).1 _ _ _ _ _ _ _ _
+
+/-- first accelerated point: with one residual difference `Δr = −p₀`, `γ_LS = 0` solves
+    `min ‖Δr γ − 0‖`, so `x_AA = g₁ = x̂₁` and `q = x̂₁ − x₁` -/
+example : outOf (Anderson.apply cA aA 1 [1, 1, 1] [2, 2, 2] [0, 0, 0] [] []) = some (true, [1, 1, 1]) := by
+  decide +kernel
+
+/-- the Givens contract of `anderson_apply_affine` is satisfiable (over ℝ, `Props.C10.givR_ok`) -/
+example : Alpaqa.C10.GivensOK Props.C10.givR := Props.C10.givR_ok
+
+end examples
 
 end Alpaqa.Props.Directions
